@@ -495,6 +495,34 @@ pub fn run(ctx: &Ctx) -> Outcome {
         let c = gen_case(&mut rng);
         run_case(ctx, &c, st, want)
     });
+    // every combination of a 'round' origin and a 'round' size, for the three kinds that have a size: the values a
+    // special case in a constructor or a shader would be written for (the origin, radius 1, powers of two, 100)
+    let origins: [(f32, f32); 5] = [(0., 0.), (1., 0.), (0., 1.), (0.5, 0.5), (8., 8.)];
+    let sizes: [f32; 11] = [1., 2., 4., 8., 16., 32., 64., 100., 128., 256., 10.];
+    let combos = (origins.len() * sizes.len() * 3) as u64;
+    run_cases(ctx, &mut out, SubSpec { name: "round_origins_and_sizes", cases: combos * if ctx.quick() { 2 } else { 40 }, exhaustive: false, max_secs: 60. }, |i, want, st| {
+        let mut rng = ctx.rng("round_origins_and_sizes", i);
+        let k = (i % combos) as usize;
+        let o = origins[k % origins.len()];
+        let size = sizes[(k / origins.len()) % sizes.len()];
+        let kind = k / (origins.len() * sizes.len());
+        let stops = random_stops(&mut rng);
+        let spread = rng.below(3) as u8;
+        let src = match kind {
+            0 => SrcSpec::Linear { stops, start: o, end: if rng.chance(0.5) { (o.0 + size, o.1) } else { (o.0, o.1 + size) }, spread },
+            1 => SrcSpec::Radial { stops, center: o, radius: size, spread },
+            _ => SrcSpec::TwoCircle { stops, c1: o, r1: if rng.chance(0.5) { 0. } else { size / 4. }, c2: o, r2: size, spread },
+        };
+        let w = rng.int(12, 40) as i32;
+        let h = rng.int(12, 40) as i32;
+        let t = match rng.below(4) {
+            0 | 1 => Transform::identity(),
+            2 => Transform::translation(rng.int(0, 8) as f32, rng.int(0, 8) as f32),
+            _ => Transform::scale(0.25, 0.25),
+        };
+        let c = GradCase { w, h, src, alpha: if rng.chance(0.7) { 1. } else { 0.5 }, t };
+        run_case(ctx, &c, st, want)
+    });
     out.assume("the source colour is observed through a full-surface Src fill (coverage 255 everywhere is verified first)");
     out
 }
